@@ -11,14 +11,14 @@ RULE = ('single: plain text = symbolic string (any code points, <= 3 chars) and 
         '(placeholders, punctuation, words, blanks) x mode; ctx: create_context with unbounded '
         'symbolic offset/length.  Reference: isolated letter = alphabetic character whose '
         'neighbours are not word characters; accepted hits by an independent scanner.')
-BOUNDS = {'quick': 'single: |text| <= 3 symbolic chars, <= 4 atoms; equ: <= 4 atoms; 7 accept lists',
+BOUNDS = {'quick': 'single: |text| <= 3 symbolic chars, <= 4 atoms; equ: <= 4 atoms; 9 accept lists (incl. a pattern that is a prefix of a later one, overlapping patterns)',
           'thorough': 'single: <= 5 atoms; equ: <= 5 atoms'}
 OUTSIDE = 'longer texts; other languages than en for the placeholder collections'
 ASSUMPTIONS = ['"letter" = str.isalpha(); "isolated" = neighbours are not alphanumeric or _',
                'accepted patterns are literal strings with ~ and \\, standing for (narrow) '
                'no-break space']
 
-ACCEPTS = [None, '', 'I', 'z.B.', 'x|y', 'a||', "l'|a.|b.", 'z.~B.|x\\,y|(']
+ACCEPTS = [None, '', 'I', 'z.B.', 'x|y', 'a||', "l'|a.|b.", 'z.~B.|x\\,y|(', 'a|a.b', 'a.b|b.a|z']
 ALPHA1 = ['a', 'I', 'x', 'z', 'B', 'l', 'é', '1', '٣', '_', '.', "'", '(', ' ', '\n', '\u202f',
           '¼', 'b']
 EQA = ['B-B-B', 'U-U-U', '.', ';', ' ', '\n', 'word', 'Word', 'x', '1', ',']
@@ -37,11 +37,11 @@ def ref_accept_hits(plain, accept):
             continue
         s = s.replace('~', '\xa0').replace('\\,', ' ')
         pats.append(s)
+    # every occurrence of every accepted pattern counts (the property: "covered by an accepted
+    # pattern"), independent of the order of the list and of overlapping occurrences
     hits = []
-    i = 0
-    while i < len(plain):
-        hit = None
-        for s in pats:
+    for s in pats:
+        for i in range(len(plain)):
             if not plain.startswith(s, i):
                 continue
             j = i + len(s)
@@ -49,13 +49,7 @@ def ref_accept_hits(plain, accept):
                 continue
             if s[-1].isalpha() and j < len(plain) and isw(plain[j]):
                 continue
-            hit = (i, j)
-            break
-        if hit:
-            hits.append(hit)
-            i = hit[1]
-        else:
-            i += 1
+            hits.append((i, j))
     return hits
 
 
